@@ -289,6 +289,56 @@ Definition P08 (c : config) (ev : evaluator) (r : request) (w : world) (o : obs)
               else None)
   end.
 
+(** P_08 as evaluated on the implementation's observations: the same clauses, but
+    the texts are only required to *name their own level:version* (the property's
+    wording), not to be byte-identical to today's sentences; the per-control
+    content of the messages is C13's subject.  [P08] above (exact text) is what
+    the model is proved to satisfy; it implies this relation. *)
+Definition names_policy (x : lv) (text : string) : bool := contains (lv_string x) text.
+Definition P08_obs (c : config) (ev : evaluator) (r : request) (w : world) (o : obs) : bool :=
+  match evaluated_object c r w with
+  | None => true
+  | Some (ls, p, enforced) =>
+      let pol := spec_policy ls (cf_defaults c) in
+      let errs := spec_errs ls in
+      let resp := fst o in
+      if is_nil errs && (if enforced then s_fully_privileged pol
+                         else level_eqb (lv_level (warn pol)) Privileged && level_eqb (lv_level (audit pol)) Privileged)
+      then is_nil (rs_warnings resp) && negb (is_some (ann "audit-violations" resp))
+      else
+        Bool.eqb (rs_allowed resp) (if enforced then negb (violates ev (enforce pol) p) else true)
+        && (if rs_allowed resp && violates ev (warn pol) p
+            then match rs_warnings resp with [t] => names_policy (warn pol) t | _ => false end
+            else is_nil (rs_warnings resp))
+        && (if violates ev (audit pol) p
+            then match ann "audit-violations" resp with Some t => names_policy (audit pol) t | None => false end
+            else negb (is_some (ann "audit-violations" resp)))
+  end.
+
+(** C13 on admission texts: the denial message, the warning and the audit annotation each list every
+    violated control of their own level:version - each reason as often as controls carry it *)
+Fixpoint count_sub (sub s : string) : nat :=
+  match s with
+  | EmptyString => if String.eqb sub "" then 1 else 0
+  | String _ rest => (if String.prefix sub s then 1 else 0) + count_sub sub rest
+  end.
+Definition lists_controls (ev : evaluator) (x : lv) (p : pod) (text : string) : bool :=
+  let reasons := ag_reasons (aggregate_results (ev x p)) in
+  forallb (fun r => negb (String.eqb r "") &&
+                    Nat.leb (List.length (filter (String.eqb r) reasons)) (count_sub r text)) reasons
+  && negb (contains "unknown forbidden reason" text).
+Definition P13_adm (c : config) (ev : evaluator) (r : request) (w : world) (o : obs) : bool :=
+  match evaluated_object c r w with
+  | None => true
+  | Some (ls, p, enforced) =>
+      let pol := spec_policy ls (cf_defaults c) in
+      let resp := fst o in
+      imp (enforced && negb (rs_allowed resp) && opt_eqb Z.eqb (rs_code resp) (Some 403%Z))
+          (lists_controls ev (enforce pol) p (rs_message resp))
+      && forallb (lists_controls ev (warn pol) p) (rs_warnings resp)
+      && match ann "audit-violations" resp with Some t => lists_controls ev (audit pol) p t | None => true end
+  end.
+
 (* ---------------------------------------------------------------- P_09 *)
 (** [o_pod]: observation of the bare-pod CREATE of the same template in a
     namespace with the same labels except enforce := privileged (if any) *)
